@@ -38,7 +38,7 @@ def run_scenarios(ctx: Ctx, base: List[dict], drops_per: int, seeds_per: int, ex
     faulty: List[dict] = []
     for sc, tr in zip(base, ref):
         n = tr['nsend']
-        idx = list(range(1, n + 1))
+        idx = list(range(1, n + 1)) if not sc.get('no_drops') else []
         if drops_per and len(idx) > drops_per and not sc.get('all_drops'):
             rng.shuffle(idx)
             idx = sorted(idx[:drops_per])
@@ -134,6 +134,25 @@ def churn(sid: str, variant: int) -> dict:
             'plans': [{'from_delay': {'node0': 100}}, {'from_delay': {'node0': 60}, 'max_delay': 30}]}
 
 
+def long_lived(sid: str, variant: int) -> dict:
+    """Two services that stay registered for hours, one with the default 75-minute pointer, one with a short TTL (raised to the
+    1125 s floor in the caches) that is learned later: the browser has to keep both alive with its refresh queries -- checked after
+    the short one's first TTL and after the long one's."""
+    a = {'name': 'Long-%d._http._tcp.local.' % variant, 'type': '_http._tcp.local.', 'host': 'node0', 'port': 80, 'txt': ''}
+    b = {'name': 'Short-%d._http._tcp.local.' % variant, 'type': '_http._tcp.local.', 'host': 'node0', 'port': 81, 'txt': '',
+         'other_ttl': [120, 600, 1125][(variant // 3) % 3]}
+    tb = [60000, 20000, 400000][variant % 3]
+    steps = [{'op': 'at', 't': 0}, {'op': 'reg', 'svc': a}, {'op': 'at', 't': 100},
+             {'op': 'bstart', 'bid': 1, 'host': 'node1', 'types': ['_http._tcp.local.']},
+             {'op': 'at', 't': tb}, {'op': 'reg', 'svc': b},
+             {'op': 'at', 't': tb + 30000}, {'op': 'check', 'kind': 'after-registration'},
+             {'op': 'at', 't': tb + 1400000}, {'op': 'check', 'kind': 'after-registration'},
+             {'op': 'at', 't': 4800000}, {'op': 'check', 'kind': 'after-registration'},
+             {'op': 'at', 't': 4800500}, {'op': 'unreg', 'svc': b},
+             {'op': 'at', 't': 4803500}, {'op': 'check', 'kind': 'after-withdrawal'}, {'op': 'at', 't': 4804000}]
+    return {'id': sid, 'seed': 6000 + variant, 'hosts': ['node0', 'node1'], 'steps': steps, 'fault': {}, 'no_lookup': False, 'no_drops': True}
+
+
 def raising_callback(sid: str, variant: int) -> dict:
     """Three services of one host and type; a host that joins later learns them from one reply (one batch of callbacks) and one of
     its Added callbacks raises, once.  The browser must still end up reporting all of them (it may report some twice)."""
@@ -181,6 +200,7 @@ def run(ctx: Ctx) -> None:
     base += [churn('c07-churn-%d' % k, k) for k in range(ctx.pick(8, 16))]
     base += [warm_browser('c07-warm-%d' % k, k) for k in range(ctx.pick(6, 12))]
     base += [raising_callback('c07-raise-%d' % k, k) for k in range(ctx.pick(6, 9))]
+    base += [long_lived('c07-long-%d' % k, k) for k in range(ctx.pick(3, 9))]
     nb = ctx.pick(18, 108)
     base += [busy_responder('c07-busy-%d' % k, (k * 7) % 108 if not ctx.thorough else k) for k in range(nb)]
     base += [lf.gen_link(rng, 'c07-%d' % k, ctx.thorough) for k in range(ctx.pick(10, 300))]
